@@ -324,7 +324,7 @@ func c07Lane_(r *core.Run, agentBin string, md *fakes.Metadata, li int, ln c07La
 	var current atomic.Value
 	current.Store("start-up")
 	stop := make(chan struct{})
-	var probes, probeFails int64
+	var probes, probeFails, slowProbes int64
 	var pwg sync.WaitGroup
 	probe := func(tok string, size int) (bool, string) {
 		delay := 0
@@ -363,9 +363,20 @@ func c07Lane_(r *core.Run, agentBin string, md *fakes.Metadata, li int, ln c07La
 				}
 				during, _ := current.Load().(string)
 				tok := fmt.Sprintf("p%ds%dl%di%d", li, r.Seed, lane, i)
+				t0 := time.Now()
 				ok, why := probe(tok, []int{10, 1000, 5000, 40000}[i%4])
 				atomic.AddInt64(&probes, 1)
+				if ok && time.Since(t0) > time.Second {
+					atomic.AddInt64(&slowProbes, 1)
+				}
 				after, _ := current.Load().(string)
+				if !ok && strings.HasPrefix(why, "no complete response") && atomic.LoadInt64(&slowProbes)*20 > atomic.LoadInt64(&probes) &&
+					agent.Alive() && strings.Contains(agent.Log(), tok) && strings.Contains(agent.Log(), "Client.Timeout") {
+					// load gauge: more than 5% of this lane's healthy probes needed over a second (they take milliseconds on a calm
+					// machine) and the agent logged its own 3 s client time-out for this very request: the machine, not a neighbour's fault
+					r.Inconclusive(fmt.Sprintf("healthy probe %s (issued during [%s]) got no response while %d of %d probes of the lane were slower than 1 s and the agent's own client time-out expired for it", tok, during, atomic.LoadInt64(&slowProbes), atomic.LoadInt64(&probes)))
+					continue
+				}
 				if !ok {
 					atomic.AddInt64(&probeFails, 1)
 					r.Violate("C07:healthy-request-disturbed:"+ln.name+":during="+during, fmt.Sprintf("healthy probe %s issued during fault [%s] (finished during [%s]) failed: %s", tok, during, after, why), nil, nil)
